@@ -4,12 +4,12 @@
    the theorem named after the kernel; an edit that does not (renamed locals, split statements) leaves it intact. *)
 From Coq Require Import ZArith Reals Lra Lia List.
 From FF Require Import Base.Ops Inst.RInst Base.RAlg Model.Numeric Model.Atomic Model.Consts Extracted.Kernels
-                       Proofs.Foi Proofs.CMBound.
+                       Proofs.Foi Proofs.CMBound Proofs.MatAlg Proofs.CMBase.
 Import ListNotations.
 Local Open Scope R_scope.
 
 (* fail-closed translator: every kernel was inside the supported subset of Python / NumPy *)
-Example kernels_translated : kernel_untranslated = nil.
+Example kernels_translated : kernel_untranslated_C01 = nil.
 Proof. reflexivity. Qed.
 
 (* ---------------- numeric._first_order_integral ---------------- *)
@@ -154,4 +154,207 @@ Proof.
   apply c_eq; [rewrite csumn_re | rewrite csumn_im]; simpl; rewrite Rplus_0_l; apply sumn_ext; intros g _;
     csimp; rewrite csumn_re, csumn_im; csimp;
     [rewrite sumn_lin2 | rewrite sumn_lin2']; apply sumn_ext; intros j _; ring.
+Qed.
+
+(* ---------------- numeric._propagate_eigenvectors, numeric._transform_hamiltonian ---------------- *)
+Example scratch_translated : propagate_eigvecs_entry_src_untranslated = nil /\ transform_hamiltonian_entry_src_untranslated = nil
+  /\ cm_scratch_entry_src_untranslated = nil /\ cm_scratch_cache_entry_src_untranslated = nil.
+Proof. repeat split; reflexivity. Qed.
+
+(* propagators.transpose(0, 2, 1).conj() @ eigvecs, segment g: Q_g^dagger V_g *)
+Theorem propagate_eigvecs_is_source d (Qf Vf : nat -> nat -> nat -> Cx) (Qm Vm : Mat (T:=R)) g a b :
+  (forall x y, (x < d)%nat -> (y < d)%nat -> Qf g x y = mget RO Qm x y) ->
+  (forall x y, (x < d)%nat -> (y < d)%nat -> Vf g x y = mget RO Vm x y) -> (a < d)%nat -> (b < d)%nat ->
+  propagate_eigvecs_entry_src RO d Qf Vf g a b = mget RO (mmul RO d (madj RO d Qm) Vm) a b.
+Proof.
+  intros HQ HV Ha Hb. unfold mmul. rewrite mget_mbuild by assumption. unfold propagate_eigvecs_entry_src.
+  apply c_eq; cbn [fst snd]; [rewrite csumn_re | rewrite csumn_im]; apply sumn_ext; intros l Hl;
+    unfold madj; rewrite mget_mbuild by assumption; rewrite (HQ l a Hl Ha), (HV l b Hl Hb); csimp; reflexivity.
+Qed.
+
+Lemma tbu_alloc_src_fmul d (U A : nat -> nat -> Cx) i j :
+  tbu_alloc_entry_src RO d U A i j = fmul d (fadj U) (fmul d A U) i j.
+Proof.
+  unfold tbu_alloc_entry_src, fmul, fadj.
+  apply c_eq; cbn [fst snd]; [rewrite csumn_re | rewrite csumn_im]; apply sumn_ext; intros k _;
+    csimp; rewrite csumn_re, csumn_im; csimp; reflexivity.
+Qed.
+
+(* a translated call of _transform_by_unitary on data that agree (below d) with model matrices is the model's U^dagger A U *)
+Lemma tbu_src_model d (Um Am : Mat (T:=R)) (U A : nat -> nat -> Cx) i j :
+  feq d U (toF Um) -> feq d A (toF Am) -> (i < d)%nat -> (j < d)%nat ->
+  tbu_alloc_entry_src RO d U A i j = mget RO (transform_by_unitary RO d Um Am) i j.
+Proof.
+  intros HU HA Hi Hj. rewrite tbu_alloc_src_fmul.
+  assert (H : feq d (fmul d (fadj U) (fmul d A U)) (toF (transform_by_unitary RO d Um Am))).
+  { rewrite HU, HA. symmetry. apply toF_transform_by_unitary. }
+  apply H; assumption.
+Qed.
+
+Lemma feq_eta d (M : nat -> nat -> Cx) : feq d (fun a b => (fst (M a b), snd (M a b))) M.
+Proof. intros a b _ _. symmetry. apply surjective_pairing. Qed.
+
+(* _transform_hamiltonian: entry [j][g][m][n] = s_j^g (V_g^dagger N_j V_g)[m][n] *)
+Theorem transform_hamiltonian_is_source d (Vs ns : list (Mat (T:=R))) (nc : list (list R)) j g m n : (m < d)%nat -> (n < d)%nat ->
+  transform_hamiltonian_entry_src RO d (fun g' a b => mget RO (nth g' Vs nil) a b) (fun j' a b => mget RO (nthm ns j') a b)
+     (fun j' g' => vg RO (nthv nc j') g') j g m n =
+  cscal RO (vg RO (nthv nc j) g) (mget RO (transform_by_unitary RO d (nth g Vs nil) (nthm ns j)) m n).
+Proof.
+  intros Hm Hn. unfold transform_hamiltonian_entry_src. cbv beta.
+  rewrite (tbu_src_model d (nth g Vs nil) (nthm ns j)) by (assumption || apply (feq_eta d (toF _))).
+  destruct (mget RO (transform_by_unitary RO d (nth g Vs nil) (nthm ns j)) m n) as [x y]. apply c_eq; csimp; ring.
+Qed.
+
+(* ---------------- numeric.calculate_control_matrix_from_scratch ---------------- *)
+Lemma csumn_shift n (f : nat -> Cx) : csumn RO (S n) f = cadd RO (f 0%nat) (csumn RO n (fun k => f (S k))).
+Proof. induction n. simpl. ring. change (csumn RO (S (S n)) f) with (cadd RO (csumn RO (S n) f) (f (S n))). rewrite IHn. simpl. ring. Qed.
+
+Lemma entry_loop_sum d I w N Cm : forall evs Vs Qs ts dts ss,
+  length Vs = length evs -> length dts = length evs -> length ss = length evs ->
+  (length evs <= length Qs)%nat -> (length evs <= length ts)%nat ->
+  entry_loop d I evs Vs Qs ts dts ss w N Cm =
+  csumn RO (length evs) (fun g => step_entry d I (nth g evs nil) (nth g Vs nil) (nth g Qs nil)
+                                           (vg RO ts g) (vg RO dts g) w (vg RO ss g) N Cm).
+Proof.
+  induction evs as [|ev evs IH]; intros Vs Qs ts dts ss HV Hd Hs HQ Ht.
+  - reflexivity.
+  - destruct Vs as [|V Vs]; [discriminate|]. destruct Qs as [|Q Qs]; [simpl in HQ; lia|].
+    destruct ts as [|t ts]; [simpl in Ht; lia|]. destruct dts as [|dt dts]; [discriminate|]. destruct ss as [|s ss]; [discriminate|].
+    cbn [entry_loop]. rewrite IH by (simpl in *; lia). cbn [length]. rewrite csumn_shift. reflexivity.
+Qed.
+
+Lemma scal_csumn (a : Cx) (s : R) n (f : nat -> Cx) :
+  cmul RO a (cscal RO s (csumn RO n f)) = csumn RO n (fun k => cmul RO a (cscal RO s (f k))).
+Proof. induction n; simpl. cring. rewrite <- IHn. cring. Qed.
+Lemma scal_csumn2 (a : Cx) (s : R) n1 n2 (F : nat -> nat -> Cx) :
+  cmul RO a (cscal RO s (csumn RO n1 (fun m => csumn RO n2 (F m)))) =
+  csumn RO n1 (fun m => csumn RO n2 (fun n => cmul RO a (cscal RO s (F m n)))).
+Proof. induction n1; simpl. cring. rewrite <- IHn1, <- scal_csumn. cring. Qed.
+
+Lemma RO_add0 x : oadd RO (o0 RO) x = x.
+Proof. simpl. ring. Qed.
+
+Lemma vg_sens_row G nc j g : (g < G)%nat -> vg RO (sens_row G nc j) g = vg RO (nthv nc j) g.
+Proof. intros H. unfold sens_row, vg at 1, vget. apply nth_build. exact H. Qed.
+
+(* Entry [j][k][o] of the array the Python function returns (both settings of cache_intermediates give the same term up to
+   the names of the junk symbols) is the model's control_matrix_from_scratch with the threshold literal of the source, for
+   ANY contents of the uninitialised work buffers and ANY state left in them by earlier iterations of the loop (junk). *)
+Section Scratch.
+Variables (d : nat) (evs : list (list R)) (Vs Qs bs ns : list (Mat (T:=R))) (om dts ts : list R) (nc : list (list R)).
+Hypothesis He : length evs = length dts.
+Hypothesis HV : length Vs = length dts.
+Hypothesis HQ : (length dts <= length Qs)%nat.
+Hypothesis Ht : (length dts <= length ts)%nat.
+
+(* the model's summand for segment g and eigenvalue indices (m, n) *)
+Definition scratch_term (j k o g m n : nat) : Cx :=
+  cmul RO (cexp RO (vg RO om o * vg RO ts g)) (cscal RO (vg RO (nthv nc j) g)
+    (cmul RO (cmul RO (mget RO (transform_by_unitary RO d (nth g Vs nil) (nthm ns j)) m n)
+                      (foi_entry RO foi_thr_R (vg RO om o) (vg RO (nth g evs nil) m) (vg RO (nth g evs nil) n) (vg RO dts g)))
+             (mget RO (transform_by_unitary RO d (mmul RO d (madj RO d (nth g Qs nil)) (nth g Vs nil)) (nthm bs k)) n m))).
+
+Lemma scratch_model_sum j k o : (j < length ns)%nat -> (k < length bs)%nat -> (o < length om)%nat ->
+  a3get RO (control_matrix_from_scratch RO d foi_thr_R evs Vs Qs om bs ns nc dts ts) j k o =
+  csumn RO (length dts) (fun g => csumn RO d (fun m => csumn RO d (fun n => scratch_term j k o g m n))).
+Proof.
+  intros Hj Hk Ho. rewrite cm_entry_loop_formula by assumption.
+  rewrite entry_loop_sum by (unfold sens_row; rewrite ?build_length; lia).
+  rewrite He. apply csumn_ext. intros g Hg. unfold step_entry. rewrite scal_csumn2.
+  apply csumn_ext; intros m Hm. apply csumn_ext; intros n Hn.
+  rewrite vg_sens_row by assumption. reflexivity.
+Qed.
+
+Lemma scratch_fst (re : nat -> nat -> nat -> R) j k o : (j < length ns)%nat -> (k < length bs)%nat -> (o < length om)%nat ->
+  (forall g m n, (g < length dts)%nat -> (m < d)%nat -> (n < d)%nat -> re g m n = fst (scratch_term j k o g m n)) ->
+  fst (a3get RO (control_matrix_from_scratch RO d foi_thr_R evs Vs Qs om bs ns nc dts ts) j k o) =
+  sumn RO (length dts) (fun g => sumn RO d (fun m => sumn RO d (fun n => re g m n))).
+Proof.
+  intros Hj Hk Ho H. rewrite scratch_model_sum by assumption. rewrite csumn_re.
+  apply sumn_ext; intros g Hg. rewrite csumn_re. apply sumn_ext; intros m Hm. rewrite csumn_re.
+  apply sumn_ext; intros n Hn. symmetry. apply H; assumption.
+Qed.
+Lemma scratch_snd (im : nat -> nat -> nat -> R) j k o : (j < length ns)%nat -> (k < length bs)%nat -> (o < length om)%nat ->
+  (forall g m n, (g < length dts)%nat -> (m < d)%nat -> (n < d)%nat -> im g m n = snd (scratch_term j k o g m n)) ->
+  snd (a3get RO (control_matrix_from_scratch RO d foi_thr_R evs Vs Qs om bs ns nc dts ts) j k o) =
+  sumn RO (length dts) (fun g => sumn RO d (fun m => sumn RO d (fun n => im g m n))).
+Proof.
+  intros Hj Hk Ho H. rewrite scratch_model_sum by assumption. rewrite csumn_im.
+  apply sumn_ext; intros g Hg. rewrite csumn_im. apply sumn_ext; intros m Hm. rewrite csumn_im.
+  apply sumn_ext; intros n Hn. symmetry. apply H; assumption.
+Qed.
+
+(* the translated applications, rewritten to the model's atoms *)
+Lemma scratch_NT j g m n : (m < d)%nat -> (n < d)%nat ->
+  tbu_alloc_entry_src RO d (fun a b => (fst (mget RO (nth g Vs nil) a b), snd (mget RO (nth g Vs nil) a b)))
+                           (fun a b => (fst (mget RO (nthm ns j) a b), snd (mget RO (nthm ns j) a b))) m n =
+  mget RO (transform_by_unitary RO d (nth g Vs nil) (nthm ns j)) m n.
+Proof. intros. apply tbu_src_model; try assumption; apply (feq_eta d (toF _)). Qed.
+
+Lemma scratch_BT k g m n : (m < d)%nat -> (n < d)%nat ->
+  tbu_alloc_entry_src RO d
+    (fun a b => (fst (propagate_eigvecs_entry_src RO d
+                        (fun g' a' b' => (fst (mget RO (nth g' Qs nil) a' b'), snd (mget RO (nth g' Qs nil) a' b')))
+                        (fun g' a' b' => (fst (mget RO (nth g' Vs nil) a' b'), snd (mget RO (nth g' Vs nil) a' b'))) g a b),
+                 snd (propagate_eigvecs_entry_src RO d
+                        (fun g' a' b' => (fst (mget RO (nth g' Qs nil) a' b'), snd (mget RO (nth g' Qs nil) a' b')))
+                        (fun g' a' b' => (fst (mget RO (nth g' Vs nil) a' b'), snd (mget RO (nth g' Vs nil) a' b'))) g a b)))
+    (fun a b => (fst (mget RO (nthm bs k) a b), snd (mget RO (nthm bs k) a b))) n m =
+  mget RO (transform_by_unitary RO d (mmul RO d (madj RO d (nth g Qs nil)) (nth g Vs nil)) (nthm bs k)) n m.
+Proof.
+  intros Hm Hn. apply tbu_src_model; try assumption; [| apply (feq_eta d (toF _))].
+  intros a b Ha Hb. rewrite <- surjective_pairing. unfold toF.
+  apply propagate_eigvecs_is_source; try assumption; intros; symmetry; apply surjective_pairing.
+Qed.
+End Scratch.
+
+Theorem cm_scratch_is_source d evs Vs Qs bs ns om dts ts nc junk j k o :
+  length evs = length dts -> length Vs = length dts -> (length dts <= length Qs)%nat -> (length dts <= length ts)%nat ->
+  (j < length ns)%nat -> (k < length bs)%nat -> (o < length om)%nat ->
+  a3get RO (control_matrix_from_scratch RO d foi_thr_R evs Vs Qs om bs ns nc dts ts) j k o =
+  cm_scratch_entry_src RO d (length dts)
+    (fun g m => vg RO (nth g evs nil) m) (fun g a b => mget RO (nth g Vs nil) a b) (fun g a b => mget RO (nth g Qs nil) a b)
+    (fun k' a b => mget RO (nthm bs k') a b) (fun j' a b => mget RO (nthm ns j') a b)
+    (fun o' => vg RO om o') (fun g => vg RO dts g) (fun g => vg RO ts g) (fun j' g => vg RO (nthv nc j') g) junk j k o.
+Proof.
+  intros He HV HQ Ht Hj Hk Ho. unfold cm_scratch_entry_src. cbv beta.
+  apply c_eq; cbn [fst snd]; rewrite RO_add0.
+  - apply scratch_fst; try assumption. intros g m n Hg Hm Hn. unfold scratch_term.
+    rewrite !(scratch_NT d Vs ns j g m n Hm Hn), !(scratch_BT d Vs Qs bs k g m n Hm Hn), !foi_entry_is_source_at_literal.
+    destruct (mget RO (transform_by_unitary RO d (nth g Vs nil) (nthm ns j)) m n) as [a1 a2].
+    destruct (foi_entry RO foi_thr_R (vg RO om o) (vg RO (nth g evs nil) m) (vg RO (nth g evs nil) n) (vg RO dts g)) as [b1 b2].
+    destruct (mget RO (transform_by_unitary RO d (mmul RO d (madj RO d (nth g Qs nil)) (nth g Vs nil)) (nthm bs k)) n m) as [c1 c2].
+    csimp. ring.
+  - apply scratch_snd; try assumption. intros g m n Hg Hm Hn. unfold scratch_term.
+    rewrite !(scratch_NT d Vs ns j g m n Hm Hn), !(scratch_BT d Vs Qs bs k g m n Hm Hn), !foi_entry_is_source_at_literal.
+    destruct (mget RO (transform_by_unitary RO d (nth g Vs nil) (nthm ns j)) m n) as [a1 a2].
+    destruct (foi_entry RO foi_thr_R (vg RO om o) (vg RO (nth g evs nil) m) (vg RO (nth g evs nil) n) (vg RO dts g)) as [b1 b2].
+    destruct (mget RO (transform_by_unitary RO d (mmul RO d (madj RO d (nth g Qs nil)) (nth g Vs nil)) (nthm bs k)) n m) as [c1 c2].
+    csimp. ring.
+Qed.
+
+(* cache_intermediates=True: the work buffers are rows of the caches; same statement *)
+Theorem cm_scratch_cache_is_source d evs Vs Qs bs ns om dts ts nc junk j k o :
+  length evs = length dts -> length Vs = length dts -> (length dts <= length Qs)%nat -> (length dts <= length ts)%nat ->
+  (j < length ns)%nat -> (k < length bs)%nat -> (o < length om)%nat ->
+  a3get RO (control_matrix_from_scratch RO d foi_thr_R evs Vs Qs om bs ns nc dts ts) j k o =
+  cm_scratch_cache_entry_src RO d (length dts)
+    (fun g m => vg RO (nth g evs nil) m) (fun g a b => mget RO (nth g Vs nil) a b) (fun g a b => mget RO (nth g Qs nil) a b)
+    (fun k' a b => mget RO (nthm bs k') a b) (fun j' a b => mget RO (nthm ns j') a b)
+    (fun o' => vg RO om o') (fun g => vg RO dts g) (fun g => vg RO ts g) (fun j' g => vg RO (nthv nc j') g) junk j k o.
+Proof.
+  intros He HV HQ Ht Hj Hk Ho. unfold cm_scratch_cache_entry_src. cbv beta.
+  apply c_eq; cbn [fst snd]; rewrite RO_add0.
+  - apply scratch_fst; try assumption. intros g m n Hg Hm Hn. unfold scratch_term.
+    rewrite !(scratch_NT d Vs ns j g m n Hm Hn), !(scratch_BT d Vs Qs bs k g m n Hm Hn), !foi_entry_is_source_at_literal.
+    destruct (mget RO (transform_by_unitary RO d (nth g Vs nil) (nthm ns j)) m n) as [a1 a2].
+    destruct (foi_entry RO foi_thr_R (vg RO om o) (vg RO (nth g evs nil) m) (vg RO (nth g evs nil) n) (vg RO dts g)) as [b1 b2].
+    destruct (mget RO (transform_by_unitary RO d (mmul RO d (madj RO d (nth g Qs nil)) (nth g Vs nil)) (nthm bs k)) n m) as [c1 c2].
+    csimp. ring.
+  - apply scratch_snd; try assumption. intros g m n Hg Hm Hn. unfold scratch_term.
+    rewrite !(scratch_NT d Vs ns j g m n Hm Hn), !(scratch_BT d Vs Qs bs k g m n Hm Hn), !foi_entry_is_source_at_literal.
+    destruct (mget RO (transform_by_unitary RO d (nth g Vs nil) (nthm ns j)) m n) as [a1 a2].
+    destruct (foi_entry RO foi_thr_R (vg RO om o) (vg RO (nth g evs nil) m) (vg RO (nth g evs nil) n) (vg RO dts g)) as [b1 b2].
+    destruct (mget RO (transform_by_unitary RO d (mmul RO d (madj RO d (nth g Qs nil)) (nth g Vs nil)) (nthm bs k)) n m) as [c1 c2].
+    csimp. ring.
 Qed.
